@@ -45,6 +45,44 @@ def emit_mir():
     return out
 
 
+def emit_mir_parser():
+    """MIR of the prqlc-parser lib (lexer: literal printing); cached by tree hash"""
+    th = core.tree_hash()
+    out = os.path.join(MIR_DIR, f"parser-{th}.mir")
+    if os.path.exists(out):
+        return out
+    os.makedirs(MIR_DIR, exist_ok=True)
+    tgt = os.path.join(MIR_DIR, "target")
+    env = dict(os.environ, CARGO_TARGET_DIR=tgt, CARGO_NET_OFFLINE="true")
+    env.pop("RUSTUP_TOOLCHAIN", None)
+    t = time.time()
+    for f in glob.glob(os.path.join(tgt, "debug", "deps", "prqlc_parser-*.mir")):
+        os.remove(f)
+    subprocess.run(["touch", os.path.join(core.REPO, "prqlc/prqlc-parser/src/lib.rs")], check=False)
+    r = subprocess.run(["cargo", "+nightly", "rustc", "--offline", "--lib", "--", "--emit=mir", "-Zmir-opt-level=0",
+                        "-C", "debug-assertions=off", "-C", "overflow-checks=on"], cwd=os.path.join(core.REPO, "prqlc/prqlc-parser"), env=env,
+                       stdout=subprocess.PIPE, stderr=subprocess.STDOUT, text=True)
+    fs = glob.glob(os.path.join(tgt, "debug", "deps", "prqlc_parser-*.mir"))
+    if r.returncode != 0 or not fs:
+        raise core.EngineError("MIR emission (prqlc-parser) failed:\n" + r.stdout[-2000:])
+    for old in glob.glob(os.path.join(MIR_DIR, "parser-*.mir")):
+        os.remove(old)
+    os.replace(fs[0], out)
+    core.log(f"[mirsym] parser MIR emitted in {time.time()-t:.1f}s -> {out}")
+    return out
+
+
+def load_parser(want_regex):
+    path = emit_mir_parser()
+    key = (path, want_regex)
+    if key not in _FUNCS:
+        rx = re.compile(want_regex)
+        fs = mir.parse_file(path, want=lambda n: rx.search(n) is not None)
+        fs.update(mir.parse_file(os.path.join(HERE, "prelude.mir")))
+        _FUNCS[key] = fs
+    return _FUNCS[key]
+
+
 _FUNCS = {}
 
 
